@@ -112,6 +112,7 @@ def declare(rep):
     rep.rule("C14.displacements", "integrator displacements have weight 0; points written by pos_.reset have weight 1", floor=1)
     rep.rule("C14.new-nodes", "the node added by split_edge / merge_edge has weight 1", floor=2)
     rep.rule("C14.decisions", "both operands of every position-dependent comparison in the refiner, contact phases, box test and divider have equal weights", floor=10)
+    rep.rule("C14.extrema-sentinels", "running minima start from a value no coordinate exceeds (+infinity / max()), running maxima from one no coordinate is below (-infinity / lowest()): numeric_limits::min() is the smallest POSITIVE double, a tissue with negative coordinates would never lower it", floor=6)
     rep.rule("C14.grid", "grid quantisation numerators have weight 0; face boxes and global extrema have weight 1 on their own axis", floor=12)
 
 
@@ -183,6 +184,7 @@ def run(rep, prog, tier):
     new_nodes(rep, prog)
     decisions(rep, prog, cm)
     grid(rep, prog, cm)
+    extrema_sentinels(rep, prog)
 
 
 def displacements(rep, prog, cm):
@@ -321,3 +323,19 @@ def grid(rep, prog, cm):
             rep.ok("C14.grid", prog, up, it, "box slot %d has weight 1 on axis %s" % (k, "xyz"[k % 3]))
         else:
             rep.violation("C14.grid", prog, up, it, "face box slot %d is not translation equivariant" % k, "slot %d of the face box has weights %s, expected %s" % (k, w, exp))
+
+
+def extrema_sentinels(rep, prog):
+    from .. import lints
+    from .c10 import product_fns
+    for fn in product_fns(prog):
+        for X, kind, cls, init, upd in lints.running_extrema(prog, fn):
+            if cls is None:
+                continue        # initialised with an ordinary value (first element, 0 for a non-negative quantity): not a sentinel
+            good = (kind == "min" and cls == "plus") or (kind == "max" and cls == "minus")
+            if good:
+                rep.ok("C14.extrema-sentinels", prog, fn, init, "running %s %s starts from %s" % (kind, X, "+inf/max()" if cls == "plus" else "-inf/lowest()"))
+            else:
+                what = {"tiny": "the smallest positive double (numeric_limits::min/epsilon)", "plus": "a huge positive value", "minus": "a huge negative value"}[cls]
+                rep.violation("C14.extrema-sentinels", prog, fn, init, "running %s %s starts from %s" % (kind, X, cls),
+                              "%s: the running %s %s is initialised with %s: coordinates on the wrong side of it are never taken (e.g. a tissue translated into the negative octant keeps a maximum of ~0 and the grid spans from the tissue to the origin) - results depend on where the tissue is placed" % (fn["qn"], kind, X, what))
